@@ -19,7 +19,7 @@ ID = "C19"
 SHARDS = {"quick": 8, "thorough": 16}
 RULE = ("tables of 1-4 variables (documented file-name patterns) on grids of 9-33 temperatures x 9-33 pressures from smooth "
         "g(T,P); requested T or P anywhere in range but not within 1 % of a half-way point; geotherm files with 3-30 rows "
-        "(extra depth column; numbers written as floats or as whole numbers without decimal point) through grid nodes, a few 1e-6 (relative) next to them, and between them; non-trivial = >= 2 variables or a request strictly between "
+        "(extra depth column; numbers written as floats or as whole numbers without decimal point) through grid nodes, a few 1e-6 (relative) next to them, and between them (extract-geotherm is run twice and followed by extract in the same process); non-trivial = >= 2 variables or a request strictly between "
         "nodes; distinct by the drawn case")
 ASSUMPTIONS = [
     "printed precision of pandas to_string: 5e-6*max(1,|x|)",
@@ -174,10 +174,27 @@ def geotherm_oracle(ctx, c):
                 gtext, gt, gp, depth, at_nodes = geotherm_text(c, T, P, rng)
             open(os.path.join(d, "geotherm.txt"), "w").write(gtext)
             res = run_cli(d, cij.cli.geotherm.main, ["-g", "geotherm.txt", "-v", ",".join(names)])
+            if refine == 1 and res.exit_code == 0:
+                # the same command again, and extract afterwards, in the same process on the unchanged files: same answers
+                res_again = run_cli(d, cij.cli.geotherm.main, ["-g", "geotherm.txt", "-v", ",".join(names)])
+                import cij.cli.extract
+                t_req = float(T[len(T) // 2])
+                res_ext = run_cli(d, cij.cli.extract.main, ["-v", names[0], "-T", repr(t_req), "-h"])
         finally:
             pass
         if res.exit_code != 0:
             raise PropertyViolation("C19/geotherm/failed", "cij extract-geotherm failed: %r" % (res.exception,), c)
+        if refine == 1:
+            if res_again.exit_code != 0 or res_again.output != res.output:
+                raise PropertyViolation("C19/geotherm/second-run-differs", "extract-geotherm run twice on the same files gives another table", c)
+            ok = res_ext.exit_code == 0
+            if ok:
+                rows = [l.split() for l in res_ext.output.splitlines() if l.strip()]
+                want_row = tabs[names[0]](t_req, P)
+                ok = len(rows) == len(P) and all(close(float(r[1]), w) for r, w in zip(rows, want_row))
+            if not ok:
+                raise PropertyViolation("C19/extract-after-geotherm", "cij extract -v %s -T %r after extract-geotherm in the same process does not return the table row" % (
+                    names[0], t_req), c)
         cols, _, vals = parse_frame_stdout(res.output, index=False)
         if cols != ["P", "D", "T"] + names:
             raise PropertyViolation("C19/geotherm/header", "columns %r" % cols, c)
